@@ -153,3 +153,119 @@ def c15_obligations():
     for k, ok in checks.items():
         out.append(_ob(f"C15.S.direct.{k}", q, ok, "source text of direct() changed", "structure of the register-by-register comparison"))
     return out
+
+
+# =============================================================================================================
+# C15 [P]: one step of direct()'s wire walk, on symbolic graph fragments of both circuits
+# =============================================================================================================
+import z3  # noqa: E402
+from pyvc import symgraph as SG  # noqa: E402
+from pyvc.interp import Interp, Engine, explore, RaiseEx, Undecided, ReturnEx, Frame  # noqa: E402
+from pyvc.values import Obj  # noqa: E402
+from pyvc.contract import Contract  # noqa: E402
+from . import compile_stab as CS  # noqa: E402
+
+CDAG = "graphiq.circuit.circuit_dag"
+OPKINDS = ["Hadamard", "CNOT", "MeasurementZ", "ClassicalCNOT", "Output"]
+
+
+class DirectStepTask:
+    """The body of `while node1 != out_node:` in direct(), mechanically extracted (everything else of direct() is dropped), run
+    for an ARBITRARY position of the walk: node1 / node2 are the current nodes on wire `reg` of circuit1 / circuit2; each has exactly
+    one outgoing edge with key `reg` (WF: a wire is a single path) besides outgoing edges of its other wires.
+    Claim: the step moves both cursors to their successors ON THAT WIRE (never along another wire's edge), and it continues iff the two
+    successor operations have the same class (C15.F table), the same q_registers and the same q_registers_type; otherwise direct()
+    returns False.  By induction over the wire positions: direct() returns True only if every wire of circuit1 carries, position by
+    position, the same operations as the same wire of circuit2."""
+
+    def __init__(self, k1, k2, other1, other2):
+        self.k1, self.k2, self.o1, self.o2 = k1, k2, other1, other2
+        self.qual = f"{CMP}:direct"
+        self.label = f"direct.walk-step[next1={k1},next2={k2},fanout={other1}{other2}]"
+        self.contract = Contract(self.qual, clause="one step of the register-by-register walk follows the wire in both circuits and compares the next operations")
+
+    def run(self):
+        eng = Engine(10000)
+        m, node, _ = source.find(self.qual)
+        loop = [n for n in ast.walk(node) if isinstance(n, ast.While)]
+        if len(loop) != 1:
+            eng.record(f"{self.label}:supported-subset", "undecided", 0, "direct() no longer has exactly one while loop", None)
+            return eng
+        body = loop[0].body
+
+        def harness(path):
+            I = Interp(path, {}, {f"{CS.OPS}:*"}, SG.install({"instantiate": CS.abstract_noise_instantiate}))
+            I.stack.append(Frame(m.name, {}, self.label))
+            t = "e"
+            r = z3.Int("wire_reg")
+            path.assume(r >= 0)
+            reg = SG.mk_templ(("", "", ""), (t, r))
+            circs, cursors, nexts, ops_ = [], [], [], []
+            for ci, (kind, other) in enumerate(((self.k1, self.o1), (self.k2, self.o2))):
+                g = SG.SymGraph()
+                cur = z3.Int(f"cur{ci}")
+                nxt = z3.Int(f"next{ci}")
+                path.assume(z3.And(cur >= 1, nxt >= 1, cur != nxt))
+                syms = dict(n_p=z3.Int("n_p"), n_e=z3.Int("n_e"), n_c=z3.Int("n_c"), r=r, rt=t, c=r, ct=t, t=z3.Int(f"oreg{ci}"), tt="e",
+                            creg=z3.Int(f"creg{ci}"))
+                path.assume(syms["t"] != r)
+                op_next = CS.make_op(I, kind, syms)
+                g.nodes.append([cur, {"op": CS.make_op(I, "Hadamard", syms)}])
+                g.nodes.append([nxt, {"op": op_next}])
+                g.closed.append(cur)
+                if other:  # the current node also sits on another wire: a second outgoing edge with another key, listed FIRST
+                    oth = z3.Int(f"other{ci}")
+                    path.assume(z3.And(oth >= 1, oth != cur))
+                    g.nodes.append([oth, {"op": CS.make_op(I, "Hadamard", syms)}])
+                    g.edges.append([cur, oth, SG.mk_templ(("", "", ""), ("e", syms["t"])), {"reg": syms["t"], "reg_type": "e"}])
+                g.edges.append([cur, nxt, reg, {"reg": r, "reg_type": t}])
+                c = Obj(I.get_class(CDAG, "CircuitDAG"))
+                c.fields["dag"] = g
+                circs.append(c)
+                cursors.append(cur)
+                nexts.append(nxt)
+                ops_.append(op_next)
+            env = {"circuit1": circs[0], "circuit2": circs[1], "node1": cursors[0], "node2": cursors[1], "reg": reg,
+                   "out_node": SG.mk_templ(("", "", "_out"), (t, r))}
+            fr = Frame(m.name, env, "direct")
+            I.stack.append(fr)
+            returned = None
+            try:
+                I.exec_block(body)
+            except ReturnEx as rx:
+                returned = ("ret", rx.value)
+            except RaiseEx as e:
+                eng.record(f"{self.label}:no-raise", "refuted", 0, f"raises {e.exc_name}: {e.msg}", None)
+                return
+            eng.record(f"{self.label}:no-raise", "discharged", 0, "", None)
+            same_class = self.k1 == self.k2
+            o1, o2 = ops_
+            regs_eq = SG.eq_term(I, I.getattr(o1, "q_registers"), I.getattr(o2, "q_registers"))
+            types_eq = I.getattr(o1, "q_registers_type") == I.getattr(o2, "q_registers_type")
+            should_continue = z3.And(z3.BoolVal(bool(same_class and types_eq)), regs_eq if not isinstance(regs_eq, bool) else z3.BoolVal(regs_eq))
+            if returned is not None:
+                path.oblige(f"{self.label}:post.returns-False-only-on-a-mismatch", z3.Not(should_continue))
+                eng.record(f"{self.label}:post.returned-value-is-False", "discharged" if returned[1] is False else "refuted", 0, "", None)
+            else:
+                path.oblige(f"{self.label}:post.continues-only-if-next-operations-agree", should_continue)
+                path.oblige(f"{self.label}:post.cursor1-follows-the-wire", SG.eq_term(I, env["node1"], nexts[0]))
+                path.oblige(f"{self.label}:post.cursor2-follows-the-wire", SG.eq_term(I, env["node2"], nexts[1]))
+
+        try:
+            explore(eng, harness)
+        except Undecided as u:
+            eng.record(f"{self.label}:supported-subset", "undecided", 0, f"{u}", None)
+        for r_ in eng.results.values():
+            r_.witness, r_.replayed = None, False
+        return eng
+
+
+def c15_tasks():
+    T = []
+    for k1 in OPKINDS:
+        for k2 in OPKINDS:
+            T.append(DirectStepTask(k1, k2, False, False))
+    for k in ("Hadamard", "CNOT"):
+        T.append(DirectStepTask(k, k, True, False))
+        T.append(DirectStepTask(k, k, True, True))
+    return T
